@@ -223,14 +223,18 @@ def semApply : Sem → List Val → Option Val
   | .fileCall, [.call c] => some (.resultCall c)
   | _, _ => none
 
+/-- which modelled action production `n` has: `none` = no action in grammar.go
+(goyacc's default `$$ = $1`), `some none` = an action outside the modelled
+sub-grammar -/
+def semKind (n : Nat) : Option (Option Sem) :=
+  (Gen.mmProdBody.find? (fun p => p.1 == n)).map fun p => semOfBody p.2
+
 /-- the semantic action of production `n` on its right-hand side values -/
 def semAct (n : Nat) (args : List Val) : Option Val :=
-  match Gen.mmProdBody.find? (fun p => p.1 == n) with
+  match semKind n with
   | none => some (args.headD .none)              -- no action: `$$ = $1`
-  | some (_, body) =>
-    match semOfBody body with
-    | some s => semApply s args
-    | none => some .none                          -- an action outside the modelled sub-grammar
+  | some (some s) => semApply s args
+  | some none => some .none                      -- an action outside the modelled sub-grammar
 
 /-- the id `Lex` returns for a token of x-c09's token type -/
 def tokChar (t : Tok) : Int :=
